@@ -181,3 +181,6 @@ def c18(ctx):
     ctx.add(ownership_facts(fx))
     import p_gate
     ctx.add([o for o in p_gate.helpers_always_apply(fx) if "::sync|" in o.key])
+    # an earlier finalisation step that fails skips the fsync: that failure must fail the run, not be tolerated
+    import r_err
+    ctx.add([o for o in r_err.run(fx, crates=("libxcp",)) if o.fn in (FINALISE, DROP)])
